@@ -266,6 +266,13 @@ def r4(ctx: Context) -> None:
     reg_nodes = {n.id for c in regs for n in cfg_node_of(g, f.node, c, pm)}
     ok = bool(reg_nodes) and bool(dom.get(g.exit, set()) & reg_nodes)
     ctx.add("R4", f"{f.qualname}::own-heartbeat-on-every-check", ok, f.loc(regs[0]) if regs else f.loc(), "" if ok else "the runner's periodic check does not register its own heartbeat on every path: the stored heartbeat of a live runner ages past the timeout and the running-invocation recovery re-queues its work")
+    # ... and a heartbeat that could not be written is an error for the check, not a warning: the runner would go on to ask
+    # "is it my turn" about a list it may not be part of (can_run_atomic_service answers True for a list of one OTHER runner)
+    from ..flow import swallowing_handlers
+
+    if regs:
+        sw = [h for c in regs for h in swallowing_handlers(f.node, c)]
+        ctx.add("R4", f"{f.qualname}::own-heartbeat-failure-propagates", not sw, f.loc(sw[0]) if sw else f.loc(regs[0]), "" if not sw else f"`except {ast.unparse(sw[0].type) if sw[0].type is not None else ''}` around register_runner_heartbeats continues without the heartbeat: the runner is then absent from (or stale in) the active list it is about to consult - its stored heartbeat ages although it is alive, and with exactly one other runner listed both are authorised for the global services at the same instants")
     ctx.floor("R4", "heartbeat obligations", ctx.count("R4"), 5)
 
 
